@@ -185,7 +185,7 @@ func (fc *FuncCtx) ghostsAssignedIn(n ast.Node) []string {
 				return true
 			}
 			for _, ga := range fc.Con.GhostAts {
-				if ga.Callee == name && ga.Ord == fc.callOrd[c] {
+				if ga.Kind == "call" && ga.Callee == name && ga.Ord == fc.callOrd[c] {
 					switch l := ga.LHS.(type) {
 					case SIdent:
 						set[l.Name] = true
@@ -199,12 +199,41 @@ func (fc *FuncCtx) ghostsAssignedIn(n ast.Node) []string {
 		}
 		return true
 	})
+	// ghosts assigned at the start of the body of a loop nested in (or equal to) n
+	ast.Inspect(n, func(n ast.Node) bool {
+		if st, ok := n.(ast.Stmt); ok {
+			if ord, ok := fc.loopOrd[st]; ok {
+				for _, ga := range fc.Con.GhostAts {
+					if ga.Kind == "body" && ga.Ord == ord {
+						switch l := ga.LHS.(type) {
+						case SIdent:
+							set[l.Name] = true
+						case SIndex:
+							if id, ok := l.X.(SIdent); ok {
+								set[id.Name] = true
+							}
+						}
+					}
+				}
+			}
+		}
+		return true
+	})
 	var res []string
 	for k := range set {
 		res = append(res, k)
 	}
 	sort.Strings(res)
 	return res
+}
+
+// runBodyGhosts executes the ghost statements anchored at the start of a loop body.
+func (fc *FuncCtx) runBodyGhosts(ord int, st *St) {
+	for _, ga := range fc.Con.GhostAts {
+		if ga.Kind == "body" && ga.Ord == ord {
+			fc.execGhost(ga.LHS, ga.RHS, st, nil)
+		}
+	}
 }
 
 type loopInfo struct {
@@ -300,6 +329,7 @@ func (fc *FuncCtx) execFor(x *ast.ForStmt, st *St, c ctl) {
 	}
 	body := head.clone()
 	body.assume(cond)
+	fc.runBodyGhosts(li.ord, body)
 	fc.execStmts(x.Body.List, 0, body, ctl{next: back, cont: back, brk: c.next, ret: c.ret})
 	if x.Cond != nil {
 		exit := head.clone()
@@ -372,6 +402,7 @@ func (fc *FuncCtx) execRange(x *ast.RangeStmt, st *St, c ctl) {
 		body.vars[keyObj] = i
 	}
 	body.ghost[idxName] = i
+	fc.runBodyGhosts(li.ord, body)
 	if id, ok := x.Value.(*ast.Ident); ok && id.Name != "_" {
 		if vo := fc.info().ObjectOf(id); vo != nil {
 			switch coll.Sort.Kind {
